@@ -160,9 +160,22 @@ def run_case(ctx, chi, rng, n_ids, subs, tag='gen'):
         lls.append(ll)
     n_cov = sum(nc for _, _, nc, _ in subs)
     cov = rng.normal(size=(n_ids, n_cov)) * 0.3 if n_cov else None
-    pm.set_n_ids(n_ids)
-    full_top_names = pm.get_parameter_names()
-    n_top_full = pm.n_parameters()
+    # the number of individuals is normally announced by the hierarchical likelihood itself; in half of
+    # the reduced cases the user wraps and fixes BEFORE the model has seen it (a heterogeneous model then
+    # still has its one-individual parameter table)
+    late_n_ids = reduced and not any(nc for c, _, nc, _ in subs if c == 6) and rng.random() < 0.5
+    names_before = pm.get_parameter_names() if late_n_ids else None
+    pm_early = pm
+    if late_n_ids:
+        models2 = [make_sub(chi, *s) for s in subs]
+        pm_twin = models2[0] if bare else chi.ComposedPopulationModel(models2)
+        pm_twin.set_n_ids(n_ids)
+        full_top_names = pm_twin.get_parameter_names()
+        n_top_full = pm_twin.n_parameters()
+    else:
+        pm.set_n_ids(n_ids)
+        full_top_names = pm.get_parameter_names()
+        n_top_full = pm.n_parameters()
     top_full = rng.uniform(0.4, 1.6, n_top_full)
     # covariate coefficients small
     t = 0
@@ -181,7 +194,11 @@ def run_case(ctx, chi, rng, n_ids, subs, tag='gen'):
             fixed[full_top_names[j]] = float(top_full[j])
         if len(set(full_top_names)) != len(full_top_names):
             fixed = {}
+        if late_n_ids:
+            # only names that exist before AND after the number of individuals is set can be fixed early
+            fixed = {n: v for n, v in fixed.items() if n in names_before}
         pm.fix_parameters(fixed)
+        inp['fixed_before_n_ids_known'] = bool(late_n_ids)
     free_mask = np.array([n not in fixed for n in full_top_names])
     try:
         hll = chi.HierarchicalLogLikelihood(lls, pm, covariates=cov)
